@@ -399,6 +399,16 @@ def params(sh):
         bm = Bycycle()
         bm.df_features = df
         bm.plot()
+    def plot_after_rejected_fit(kw):
+        bm = Bycycle(**kw)
+        try:
+            bm.fit(sig, FS, FR)
+        except ValueError:
+            pass
+        bm.plot()
+    for nm, kw in (('threshold', {'thresholds': {'monotonicity_threshold': 1.5}}), ('min_n_cycles', {'thresholds': {'min_n_cycles': -1}}),
+                   ('center_extrema', {'center_extrema': 'middle'}), ('burst_method', {'burst_method': 'consistency', 'thresholds': {'min_n_cycles': 3}})):
+        P.append(('plot-before-fit|plot after a fit that was rejected (%s)' % nm, 'reject', lambda kw=kw: plot_after_rejected_fit(kw)))
     P += [('plot-before-fit|Bycycle().plot()', 'reject', lambda: Bycycle().plot()),
           ('plot-before-fit|table set but no signal', 'reject', plot_after_load_only_table),
           ('plot-valid|fit then plot', 'accept', plot_after_fit)]
